@@ -9,7 +9,7 @@
    Statements only; proofs in Proofs/C19Src.v.                                *)
 From Coq Require Import NArith List String Bool.
 From V Require Import Base.UString Model.Registry Model.RegistryInit Model.RegistryFlow Gen.Regexes Gen.RegFlow
-                      Proofs.RegistryFacts Proofs.C19Src.
+                      Spec.NamingSpec Proofs.RegistryFacts Proofs.NamingFacts Proofs.C19Proofs Proofs.C19Src.
 Import ListNotations.
 
 Theorem src_register_object_is_model : forall vt r V n d cls,
@@ -67,3 +67,37 @@ Theorem src_decorators_copy_and_register :
   src_properties_copied = true /\ src_extname_registers_unconditionally = true.
 Proof. split; reflexivity. Qed.
 Print Assumptions src_decorators_copy_and_register.
+
+(* ---------------- the naming rules, AT THE CURRENT SOURCE ----------------
+   The equivalences of Props/C19.v (type_name_rule, ext_name_rule, prop_name_rule) are conditional on
+   the variant; here they are discharged for the variant the regex texts of the current source
+   denote.  A source whose regexes fall back to `$`, to consecutive hyphens or to the first-character
+   check breaks these obligations (and the *_refuted theorems of Props/C19.v then apply).           *)
+Theorem source_variant_is_repaired : source_variant = Some repaired.
+Proof. vm_compute. reflexivity. Qed.
+Print Assumptions source_variant_is_repaired.
+
+Theorem source_naming_rules : forall v, source_variant = Some v ->
+  (forall V s, validate_type v V s = true <-> spec_type_name (sv V) s) /\
+  (forall V n, validate_ext_name v V n = true <-> spec_ext_name V n) /\
+  (forall V s, validate_prop_name v V s = true <-> spec_prop_name (sv V) s).
+Proof.
+  intros v H. rewrite source_variant_is_repaired in H. inversion H; subst v. split; [|split].
+  - intros. apply type_name_rule_lemma. apply repaired_strict.
+  - intros. apply ext_name_rule_lemma; [apply repaired_strict | reflexivity].
+  - intros. apply prop_name_rule_lemma. reflexivity.
+Qed.
+Print Assumptions source_naming_rules.
+
+(* so, at the current source: a name that breaks the rules is refused and nothing is registered *)
+Theorem source_invalid_names_refused : forall v, source_variant = Some v -> forall r q,
+  (r_kind q <> Extensions -> ~ spec_type_name (sv (r_ver q)) (r_name q) -> decorate v r q = (r, Failed EValue)) /\
+  (r_kind q = Extensions -> ~ spec_ext_name (r_ver q) (r_name q) -> decorate v r q = (r, Failed EValue)) /\
+  (forall n k, In (n, k) (r_props q) -> ~ spec_prop_name (sv (r_ver q)) n -> exists e, snd (decorate v r q) = Failed e).
+Proof.
+  intros v H r q. rewrite source_variant_is_repaired in H. inversion H; subst v. split; [|split].
+  - intros. apply invalid_type_name_refused_lemma; auto. apply repaired_strict.
+  - intros. apply invalid_ext_name_refused_lemma; auto. apply repaired_strict.
+  - intros n k I NS. eapply invalid_prop_name_refused_lemma; eauto.
+Qed.
+Print Assumptions source_invalid_names_refused.
